@@ -56,11 +56,11 @@ def apply1 (d : Nat) (o : Op1) (a : E) : Except Err E :=
   | .hessian => Calc.linEval .hessian a
   | .div => Calc.divEval d a
   | .laplace => Calc.laplaceEval d a
-  | .jump => .ok (Calc.ifaceEval .jump a)
-  | .avg => .ok (Calc.ifaceEval .avg a)
-  | .minus => .ok (Calc.ifaceEval .minus a)
-  | .plus => .ok (Calc.ifaceEval .plus a)
-  | .dn => .ok (Calc.ifaceEval .dn a)
+  | .jump => Calc.ifaceEval d .jump a
+  | .avg => Calc.ifaceEval d .avg a
+  | .minus => Calc.ifaceEval d .minus a
+  | .plus => Calc.ifaceEval d .plus a
+  | .dn => Calc.ifaceEval d .dn a
   | o => .ok (op1 o a)
 
 /-- a binary operator constructor on already evaluated arguments -/
